@@ -25,9 +25,12 @@ def _tag(tag, opre=None, restre=None):
         # this finding must be the one at the first diverging run
         if p["diffN"] == "None" and p["diffT"] == "None":
             return False
-        if p["diffN"] != "None" and not (p["diffI"] == "None" and p["tn"]):
+
+        def upto(di, ds):      # I reproduces the observation through the op at which S diverges
+            return di == "None" or int(re.findall(r"\d+", di)[0]) > int(re.findall(r"\d+", ds)[0])
+        if p["diffN"] != "None" and not (upto(p["diffI"], p["diffN"]) and p["tn"]):
             return False
-        if p["diffN"] == "None" and p["diffT"] != "None" and not (p["diffIT"] == "None" and p["tt"]):
+        if p["diffN"] == "None" and p["diffT"] != "None" and not (upto(p["diffIT"], p["diffT"]) and p["tt"]):
             return False
         ok = tag in (p["tn"] if p["diffN"] != "None" else p["tt"])
         if ok and opre:
@@ -58,10 +61,13 @@ CFG = {
              "dense<->sparse at 1-3 random points, and (35%) on an array-like plain object; after every op the result/error class "
              "and the full own-property dump (length, writable, extensible, every integer key's descriptor in ownKeys order) are "
              "compared with the model; non-trivial = at least 3 executed ops or a storage transition happened; distinct by hash"),
-    "theorem_names": ["define_refines_spec_partial", "define_kindchange_refuted", "sparse_refines", "dense_refines",
-                      "transition_invisible", "setlength_nonconfigurable_tail", "sparse_setlength_refuted",
-                      "counters_refuted", "counters_truncate_refuted", "export_refuted", "pvc_undercount_refuted",
-                      "check_sort_sound", "check_sort_array_sound"],
+    "theorem_names": ["define_refines_spec", "define_clean_partial", "define_stale_refuted", "sparse_reads_refine",
+                      "dense_reads_refine", "sparse_setlength_refines", "dense_setlength_refines",
+                      "sparse_delete_refines", "dense_delete_refines", "sparse_set_refines", "dense_set_refines",
+                      "sparse_define_refines", "dense_define_refines", "history_refines", "init_inv",
+                      "dense_delete_counters", "dense_set_counters", "dense_define_counters", "dense_setlength_pvc",
+                      "transition_invisible", "setlength_nonconfigurable_tail", "counters_truncate_refuted",
+                      "export_refuted", "pvc_undercount_refuted", "check_sort_sound", "check_sort_array_sound"],
     "allowed_axioms": [],
     "trusted_base": [
         "Coq 8.16.1 kernel + vm_compute (no native_compute); theorems closed under the global context (no axioms)",
@@ -75,38 +81,44 @@ CFG = {
         "the implementation is tied to the models only on the generated histories (correspondence), not by proof",
         "looping methods are only issued on arrays of length <= 200; a failing delete on longer arrays is skipped "
         "(it does not terminate in reasonable time: finding C07-N8)",
-        "a divergence from S is attributed to a recorded finding only when the faithful model I reproduces the complete "
-        "observation of the case and the diverging op lies in that finding's region (tags computed inside Coq)",
+        "a divergence from S is attributed to a recorded finding only when the faithful model I reproduces the observation "
+        "through the diverging op and that op lies in that finding's region (tags computed inside Coq)",
     ],
     "predicates": {
-        "C07.tag4_sparse_setlength_eq_nonconfigurable_idx": _tag(4, r"OSetLen|ODefLen"),
         "C07.tag6_pvc_undercount_after_transition": _tag(6, r"OSetLen|ODefLen"),
-        "C07.tag3_fastpath_guard_with_holes": _tag(3, r"OIncludes|OIndexOf|OReverse|OFill|OCopyWithin|OSort|OSplice|OPop"),
-        "C07.tag3_fastpath_guard_with_holes_export": _tag(3, r"OExport"),
-        "C07.tag2_define_kind_change": _tag(2, r"ODefine", r"Some \(Ob \(RErr 1\) DSame\), Some \(Ob (RU|\(RB true\))"),
+        "C07.tag3_fastpath_guard_with_holes": _tag(3, r"OIncludes|OIndexOf|OReverse|OFill|OCopyWithin|OSort|OSplice|OPop|OExport"),
         "C07.tag1_stale_valueproperty_writable": _tag(1, r"ODefine", r"Some \(Ob (RU|\(RB true\)) .*Some \(Ob (RU|\(RB true\))"),
         "C07.tag1_stale_valueproperty_set": _tag(1, r"OSet |OPush|OUnshift|OSplice|OReverse|OFill|OCopyWithin|OSort|OShift"),
         "C07.tag1_stale_valueproperty_getter": _tag(1, r"OGet|OSlice|OConcat|OIndexOf|OIncludes|OExport|OPop|OShift"),
         "C07.tag7_invalid_length_on_nonwritable": _tag(7, r"OSetLen|OPush|OUnshift", r"Some \(Ob \(RErr 1\).*Some \(Ob \(RErr 2\)"),
         "C07.tag8_splice_fastpath_nonwritable_length": _tag(8),
         "C07.tag9_splice_fastpath_nonextensible": _tag(9, r"OSplice"),
+        "C07.export_hostpanic_after_pvc_undercount": lambda case, record, exp: (
+            (record.get("obs") or "").startswith("HOSTPANIC: Cannot export valueProperty")
+            and any(o.get("o") == "export" for o in case.get("ops", []))
+            and any(o.get("o") == "def" and o.get("k", 0) > 4096 and
+                    not all(x in (o.get("d") or {}) and (o["d"][x] is True or x == "v") for x in ("v", "w", "e", "c"))
+                    for o in case.get("ops", []))
+            and bool(case.get("twin"))),
     },
     "manifest": {
-        "text": ("proof: the Array exotic object (ArraySetLength, index [[DefineOwnProperty]], delete, get/has with holes) is modelled "
-                 "as spec S over a finite map; goja's dense (values[]+counters) and sparse (sorted items[]) storages and both "
-                 "expand() transitions are transcribed as I. Proved without axioms, for all states satisfying the storage invariant "
-                 "and all operations: each storage refines S (sparse_refines, dense_refines, with the regions of the recorded "
-                 "defects carved out by explicit guards and each defect exhibited by a vm_compute witness), switching storage never "
-                 "changes the abstract array (transition_invisible), truncation stops at the greatest non-configurable index "
-                 "(setlength_nonconfigurable_tail), and a verified validator check_sort is sound: it accepts only permutations "
-                 "that are sorted and stable whenever the recorded comparator is consistent. Every run replays 1500 (quick) / "
-                 "80000 (thorough) generated histories on a normal array, a twin forced through dense<->sparse transitions and "
-                 "an array-like object and compares every result and full descriptor dump with S evaluated by vm_compute; "
-                 "every observed sort result is fed to check_sort."),
+        "text": ("proof: the Array exotic object (ArraySetLength, index [[DefineOwnProperty]], [[Set]], delete, get/has with holes) is "
+                 "modelled as spec S over a finite map; goja's dense (values[]+counters) and sparse (sorted items[]) storages, both "
+                 "expand() transitions and _defineOwnProperty are transcribed as I (kept in step with the fix: commits). Proved "
+                 "without axioms, for all states satisfying the storage invariant and all arguments: every operation of either "
+                 "storage - reads, indexed write, define, delete, length assignment - returns S's result and denotes S's array, "
+                 "through every dense<->sparse switch, and preserves the invariant (26 theorems; history_refines lifts this to all "
+                 "histories by induction); _defineOwnProperty equals ValidateAndApplyPropertyDescriptor for every well-formed "
+                 "descriptor; truncation stops at the greatest non-configurable index; the regions of the still-open findings are "
+                 "carved out by explicit hypotheses and each exhibited by a vm_compute witness; a verified validator check_sort "
+                 "accepts only permutations that are sorted and stable whenever the recorded comparator is consistent. Every run "
+                 "replays 1500 (quick) / 80000 (thorough) generated histories on a normal array, a twin forced through "
+                 "dense<->sparse transitions (with the last real element as the last converted item, every filler read back) and "
+                 "an array-like object, and compares every result and full descriptor dump with S evaluated by vm_compute."),
         "note": ("trusted: Coq kernel + vm_compute; the hand transcription of array.go/array_sparse.go/_defineOwnProperty and of the "
-                 "builtin_array.go fast paths in coq/C07/Model.v; the spec model S (validated against node during development); the Go "
-                 "harness; the Array.prototype algorithms are tied to the code by correspondence only (no refinement proof for them); "
-                 "goslice wrappers are not covered"),
-        "technique": "Rocq refinement proof (two storages refine the array exotic object; invariant preservation; verified sort validator) + differential correspondence against /repo via vm_compute",
+                 "builtin_array.go fast paths in coq/C07/Model.v; the spec model S; the Go harness; the Array.prototype algorithms and "
+                 "freeze/seal are tied to the code by correspondence only (no refinement proof for them); goslice wrappers and "
+                 "mutating comparators are not covered"),
+        "technique": "Rocq refinement proof (two storages refine the array exotic object operation by operation, invariant preservation, induction over histories; verified sort validator) + differential correspondence against /repo via vm_compute",
     },
 }
